@@ -51,6 +51,9 @@ type Analyzer struct {
 	// PreserveFields: an opaque call does not modify the fields of the objects
 	// the current function received (stated as an assumption by the rule).
 	PreserveFields func(call ssa.CallInstruction) bool
+	// IndexByteFacts: IndexByte / LastIndexByte with a constant byte split into
+	// "not found" and "found at r with s[r] == c" (more states; off by default)
+	IndexByteFacts bool
 	// CapIsLen: for this cap(x) call the rule has established len(x) == cap(x)
 	// (allocated by make([]T, n) and only ever stored whole).
 	CapIsLen func(call ssa.CallInstruction) bool
